@@ -1,14 +1,20 @@
 //@@ append parser/src/ffi.rs
 // Unit ffi_k (Kani path B): C functions that copy a freshly computed Vec / string into a caller buffer
-// (llg_matcher_compute_ff_tokens, llg_tokenize_bytes, llg_stringify_tokens): whole real fn items in a shim environment.
+// (llg_matcher_compute_ff_tokens, llg_tokenize_bytes, llg_stringify_tokens, llg_decode_tokens, save_error_string): whole real fn items
+// in a shim environment.
 #[cfg(kani)]
 mod verif_kani_ffi_copy {
     use super::slice_from_ptr_or_empty;
+    use super::{LLG_DECODE_INCLUDE_SPECIAL, LLG_DECODE_VALID_UTF8};
     use std::ffi::c_char;
+    use std::fmt::Display;
 
     //@@ fnspan parser/src/ffi.rs ff_tokens_fn llg_matcher_compute_ff_tokens
     //@@ fnspan parser/src/ffi.rs tokenize_fn llg_tokenize_bytes
     //@@ fnspan parser/src/ffi.rs stringify_fn llg_stringify_tokens
+    //@@ fnspan parser/src/ffi.rs decode_fn llg_decode_tokens
+    //@@ fnspan parser/src/ffi.rs tokenize_marker_fn llg_tokenize_bytes_marker
+    //@@ fnspan parser/src/ffi.rs save_err_fn save_error_string
 
     struct ShimError;
     type Result<T> = core::result::Result<T, ShimError>;
@@ -64,6 +70,9 @@ mod verif_kani_ffi_copy {
             // (clone: the shim is behind & like the real tokenizer)
             self.toks.as_ref().unwrap().clone()
         }
+        fn tokenize_bytes_marker(&self, _b: &[u8]) -> (Vec<u32>, usize) {
+            (self.toks.as_ref().unwrap().clone(), 0)
+        }
     }
     struct ShimTrie {
         s: [u8; N],
@@ -82,6 +91,19 @@ mod verif_kani_ffi_copy {
             unsafe { String::from_utf8_unchecked(v) }
         }
     }
+    impl ShimTrie {
+        fn decode_ext(&self, _t: &[u32], _special: bool) -> Vec<u8> {
+            let mut v = Vec::with_capacity(N);
+            let mut i = 0;
+            while i < N {
+                if i < self.n {
+                    v.push(self.s[i]);
+                }
+                i += 1;
+            }
+            v
+        }
+    }
     struct LlgTokenizer {
         env: ShimEnv,
         trie: ShimTrie,
@@ -97,6 +119,84 @@ mod verif_kani_ffi_copy {
     /*@@paste ff_tokens_fn s/#[no_mangle]//*/
     /*@@paste tokenize_fn s/#[no_mangle]//*/
     /*@@paste stringify_fn s/#[no_mangle]//*/
+    /*@@paste decode_fn s/#[no_mangle]//*/
+    /*@@paste tokenize_marker_fn s/#[no_mangle]//*/
+    /*@@paste save_err_fn*/
+
+    /// decode: NUL-terminated, truncated to output_len - 1 bytes, returns the size needed, never writes past the buffer
+    /// (flags without LLG_DECODE_VALID_UTF8: the lossy re-encoding is std code outside the harness' budget)
+    #[kani::proof]
+    #[kani::unwind(6)]
+    #[kani::stub(std::ptr::copy_nonoverlapping, stub_copy_nonoverlapping)]
+    fn ffi_decode_copy() {
+        let s: [u8; N] = kani::any();
+        let n: usize = kani::any();
+        kani::assume(n <= N);
+        let tok = LlgTokenizer { env: ShimEnv { toks: None }, trie: ShimTrie { s, n } };
+        let toks = [1u32; 1];
+        let mut out = [0x55 as c_char; N + 3];
+        let out_len: usize = kani::any();
+        kani::assume(out_len <= N + 2);
+        let null: bool = kani::any();
+        let p = if null { core::ptr::null_mut() } else { out.as_mut_ptr() };
+        // concrete flags keep the LLG_DECODE_VALID_UTF8 branch (String::from_utf8_lossy) out of the formula
+        let flags: u32 = LLG_DECODE_INCLUDE_SPECIAL & !LLG_DECODE_VALID_UTF8;
+        let r = unsafe { llg_decode_tokens(&tok, toks.as_ptr(), 1, p, out_len, flags) };
+        assert!(r == n + 1);
+        let i: usize = kani::any();
+        kani::assume(i < N + 3);
+        if null || out_len == 0 {
+            assert!(out[i] == 0x55);
+        } else {
+            let len = if n < out_len - 1 { n } else { out_len - 1 };
+            if i < len {
+                assert!(out[i] as u8 == s[i]);
+            } else if i == len {
+                assert!(out[i] == 0);
+            } else {
+                assert!(out[i] == 0x55);
+            }
+        }
+    }
+
+    /// error strings: NUL-terminated, truncated to error_string_len - 1 bytes, nothing written past the buffer or into a null one
+    #[kani::proof]
+    #[kani::unwind(6)]
+    #[kani::stub(std::ptr::copy_nonoverlapping, stub_copy_nonoverlapping)]
+    fn ffi_save_error_string() {
+        let s: [u8; N] = kani::any();
+        let n: usize = kani::any();
+        kani::assume(n <= N);
+        let mut v = Vec::with_capacity(N);
+        let mut i = 0;
+        while i < N {
+            if i < n {
+                v.push(s[i] & 0x7f);
+            }
+            i += 1;
+        }
+        let msg = unsafe { String::from_utf8_unchecked(v) };
+        let mut out = [0x55 as c_char; N + 3];
+        let out_len: usize = kani::any();
+        kani::assume(out_len <= N + 2);
+        let null: bool = kani::any();
+        let p = if null { core::ptr::null_mut() } else { out.as_mut_ptr() };
+        unsafe { save_error_string(msg, p, out_len) };
+        let i: usize = kani::any();
+        kani::assume(i < N + 3);
+        if null || out_len == 0 {
+            assert!(out[i] == 0x55);
+        } else {
+            let len = if n < out_len - 1 { n } else { out_len - 1 };
+            if i < len {
+                assert!(out[i] as u8 == s[i] & 0x7f);
+            } else if i == len {
+                assert!(out[i] == 0);
+            } else {
+                assert!(out[i] == 0x55);
+            }
+        }
+    }
 
     /// fast-forward tokens: min(len, output_len) tokens copied, that count returned, nothing written past the buffer
     #[kani::proof]
@@ -141,6 +241,31 @@ mod verif_kani_ffi_copy {
         let null: bool = kani::any();
         let p = if null { core::ptr::null_mut() } else { out.as_mut_ptr() };
         let r = unsafe { llg_tokenize_bytes(&tok, bytes.as_ptr(), 2, p, out_len) };
+        assert!(r == n);
+        let want = if null { 0 } else if n < out_len { n } else { out_len };
+        let i: usize = kani::any();
+        kani::assume(i < N + 2);
+        if i < want {
+            assert!(out[i] == a[i]);
+        } else {
+            assert!(out[i] == CANARY);
+        }
+    }
+
+    /// tokenize (marker variant): same contract
+    #[kani::proof]
+    #[kani::unwind(6)]
+    #[kani::stub(std::ptr::copy_nonoverlapping, stub_copy_nonoverlapping)]
+    fn ffi_tokenize_marker_copy() {
+        let (v, a, n) = any_vec_u32();
+        let tok = LlgTokenizer { env: ShimEnv { toks: Some(v) }, trie: ShimTrie { s: [0; N], n: 0 } };
+        let bytes = [b'x'; 2];
+        let mut out = [CANARY; N + 2];
+        let out_len: usize = kani::any();
+        kani::assume(out_len <= N + 1);
+        let null: bool = kani::any();
+        let p = if null { core::ptr::null_mut() } else { out.as_mut_ptr() };
+        let r = unsafe { llg_tokenize_bytes_marker(&tok, bytes.as_ptr(), 2, p, out_len) };
         assert!(r == n);
         let want = if null { 0 } else if n < out_len { n } else { out_len };
         let i: usize = kani::any();
